@@ -158,6 +158,9 @@ def runMergeable (I : ImplC Int Int) (cmps : Nat → Int → Int → Int) (dump 
 
 def runCase (hdr : List String) (ops : List String) : List String :=
   let cmp := cmpOf hdr
+  -- `huge=1`: heaps of 2^18 .. 5*10^6 entries behind single `bulk` lines, judged by the harness oracle alone; the
+  -- executable Model is not run at that size and the executor prints `ok` per line as well (a panic still differs)
+  if (headerGet hdr "huge").isSome then ops.map fun _ => "ok" else
   match headerGet hdr "comp" with
   | some "binary" => runBinary cmp (headerNat hdr "size" 0) ops
   | some "binomial" => runMergeable (binomialImplC eqI) (cmpsOf hdr) dumpBinomial false ops
